@@ -82,6 +82,30 @@ def canon(x):
     return (type(x).__name__, repr(x))
 
 
+POISON = '<<poisoned-by-the-harness>>'
+
+
+def poison(x, depth=0):
+    """Mutate every mutable container of a returned value: if the library hands the same
+    object out again (a cache of parsed literals, aliasing inside one result), the next
+    result no longer equals the literal its text denotes."""
+    if depth > 4:
+        return
+    if isinstance(x, list):
+        for i in x:
+            poison(i, depth + 1)
+        x.append(POISON)
+    elif isinstance(x, dict):
+        for i in list(x.values()):
+            poison(i, depth + 1)
+        x[POISON] = POISON
+    elif isinstance(x, set):
+        x.add(POISON)
+    elif isinstance(x, tuple):
+        for i in x:
+            poison(i, depth + 1)
+
+
 def hashable(v):
     try:
         hash(v)
@@ -274,6 +298,15 @@ class C19(Check):
             if canon(results[a]) != canon(results[b]):
                 res.violate('C19:shapes-disagree', 'the same pairs given in two shapes produced different dictionaries',
                             shapes=[a, b])
+        # aliasing inside one result: two values that are distinct literals in the input must be distinct objects
+        for name, d in results.items():
+            vals = [v for v in d.values() if isinstance(v, (list, dict, set))]
+            if len({id(v) for v in vals}) < len(vals):
+                res.violate('C19:aliased-values', 'two values of one result are the same mutable object', shape=name)
+        for d in results.values():
+            for v in list(d.values()):
+                poison(v)
+            st['results_poisoned'] += 1
         nonlit = any(kv is KEEP or vv is KEEP for (_, kv), (_, vv) in frs)
         sepin = any(sep in vt for _, (vt, _) in frs)
         dup = expected is not None and len(expected) < len(frs)
